@@ -221,6 +221,19 @@ func runC17(cfg *config) *Report {
 		}
 		rep.Evaluations++
 		rep.count("build-twice")
+		if i%2 == 1 {
+			// caller-supplied item sequence numbers, unpadded, of different widths
+			for ci := range f.CashLetters {
+				for _, b := range f.CashLetters[ci].Bundles {
+					for j, cd := range b.Checks {
+						cd.EceInstitutionItemSequenceNumber = fmt.Sprint(9 + j)
+					}
+					for j, rd := range b.Returns {
+						rd.EceInstitutionItemSequenceNumber = fmt.Sprint(9 + j)
+					}
+				}
+			}
+		}
 		if err := build(); err != nil {
 			continue
 		}
